@@ -169,7 +169,7 @@ def expected_for(line):
     return None
 
 
-IMPL_KINDS = {"pw", "ph", "bs", "ps", "pwr", "phr", "bsr", "psr", "sc", "tbl", "gs", "layenc", "errs", "cmp"}
+IMPL_KINDS = {"pw", "ph", "bs", "ps", "pwr", "phr", "bsr", "psr", "sc", "tbl", "gs", "layenc", "errs", "cmp", "seq"}
 MODEL_KINDS = {"pw", "ph", "bs", "bs32", "ps", "ps32", "pwr", "phr", "bsr", "psr", "sc", "tbl", "gs", "lay", "cd", "dct"}
 
 
@@ -318,6 +318,29 @@ def gen_cases(ctx):
         ex = [rng.choice([-1, 0, 0, 1, 3, 7, 16, 33]) for _ in range(3)]
         add("cmp %d %d %d %d %d %d %d %d %d %d %d %d" % (rng.below(1 << 60), w, h, s, rng.choice([5, 30, 50, 75, 90, 95, 100]), sfi,
             rng.choice(ALIGNS), rng.choice(pfs), ex[0], ex[1], ex[2], rng.below(64)), "compose")
+    # ---- TurboJPEG 2.x entry points (tjDecompressToYUV2/ToYUV/ToYUVPlanes/tjDecompress(TJ_YUV), tjDecodeYUV[Planes], tjEncodeYUV3/Planes,
+    #      tjCompressFromYUV[Planes], tjBufSizeYUV2, tjPlaneSizeYUV, tjPlaneWidth/Height) on REUSED handles over image sequences with
+    #      changing subsampling and dimensions (A, B, A', ...), with and without a header call in between: each result must be the
+    #      tj3 result of a fresh instance, i.e. the documented layout of the current image (no state of the previous image)
+    nq = ctx.n(2500, 25000)
+    for i in range(nq):
+        n = rng.range(2, 4)
+        base = [rng.range(1, 70), rng.range(1, 70)]
+        parts = []
+        prev_s = None
+        for k in range(n):
+            s = rng.below(nsamp)
+            if prev_s is not None and rng.chance(3, 4):
+                while s == prev_s:
+                    s = rng.below(nsamp)
+            prev_s = s
+            if k == 2 and rng.chance(1, 2):
+                s, (w, h) = parts[2], (parts[0], parts[1])      # A again
+            else:
+                w, h = (base[0], base[1]) if rng.chance(1, 3) else (rng.range(1, 90), rng.range(1, 90))
+            sfi = T["sf"].index((1, 1)) if rng.chance(1, 2) and (1, 1) in T["sf"] else rng.below(nsf)
+            parts += [w, h, s, rng.choice([30, 75, 90, 97, 100]), sfi, rng.choice([0, 0, 0, 1, 2])]
+        add("seq %d %d %d %s" % (rng.below(1 << 60), rng.choice(ALIGNS), n, " ".join(map(str, parts))), "legacy-sequences")
     # ---- composition on JPEGs built through the libjpeg API: sampling factors written in non-standard ways (denoting a
     #      TJSAMP level by ratio, or none) x scan scripts incl. incomplete progressive ones (DC only, partial AC bands,
     #      final Al > 0, per-component differences, random with refinements): block smoothing and the choice of the
@@ -435,7 +458,7 @@ def run_cases(ctx, cases, exes, drv, flavours):
         if fl != flavours[0] and not ctx.thorough() and not ctx.replay:
             keep, ncmp = [], 0
             for i in idx:
-                if cases[i][0].startswith("cmp "):
+                if cases[i][0].startswith("cmp ") or cases[i][0].startswith("seq "):
                     ncmp += 1
                     if ncmp % 3:
                         continue
@@ -469,7 +492,7 @@ def run_cases(ctx, cases, exes, drv, flavours):
             if impl is not None and model is not None and impl != model:
                 ctx.broken_tie("tables", "tables compiled into the library differ from the generated facts: %s vs %s" % (impl, model))
             key = ("tbl",)
-        elif kind in ("layenc", "errs", "cmp"):
+        elif kind in ("layenc", "errs", "cmp", "seq"):
             for fl in flavours:
                 o = outs[fl].get(i)
                 if o is None:
@@ -486,6 +509,16 @@ def run_cases(ctx, cases, exes, drv, flavours):
                                       signature=cmp_signature(line, o))
                     else:
                         ctx.broken_tie("compose-harness", "could not set up case %s: %s" % (line, o))
+            if kind == "seq":
+                for fl in flavours:
+                    o = outs[fl].get(i)
+                    if o is not None and not o.startswith("seq ok"):
+                        if o.startswith("seq FAIL") and not o.startswith("seq FAIL setup"):
+                            step = o[9:].split(":")[0].split(" failed")[0].split(" wrote")[0].split(" !=")[0]
+                            ctx.violation("2.x entry point on a reused handle disagrees with the tj3 function on a fresh instance (%s build): %s" % (fl, o[9:330]),
+                                          {"case": line, "flavour": fl, "impl": o}, signature="legacy-sequence:" + step[:40])
+                        else:
+                            ctx.broken_tie("sequence-harness", "could not set up %s: %s" % (line[:120], o[:200]))
             if kind == "cmp" and impl:
                 f = line.split()
                 key = ("cmp", f[4], f[6], f[7], impl.split("dec=")[-1] if "dec=" in impl else impl[:16], min(int(f[2]), 99) // 8, min(int(f[3]), 99) // 8,
